@@ -33,6 +33,12 @@ def make_cases(tier, rng):
             late = [{"stream": "out", "n": 300, "seed": 3000, "gap_ms": 0}, {"stream": "err", "n": 200, "seed": 3001, "gap_ms": 0},
                     {"stream": "out", "n": rng.choice([100, 2048]), "seed": 3002, "gap_ms": 1700}, {"stream": "err", "n": 1500, "seed": 3003, "gap_ms": 1700}]
             cases.append({"name": "io%d" % len(cases), "proto": proto, "pre": [], "attach_delay_ms": 0, "with_rpc": False, "script": late, "start_timeout_ms": 1000})
+    # the host's stdout writer is stuck for six seconds while the plugin writes more than a yamux window's worth
+    for proto in (["netrpc"] if tier == "quick" else ["netrpc", "grpc", "netrpc"]):
+        cases.append({"name": "io%d" % len(cases), "proto": proto, "kind": "stall", "pre": [], "attach_delay_ms": 0, "with_rpc": False, "stall_ms": 6000,
+                      # (a small first write, so that the blocks the copier reads afterwards do not line up with the window)
+                      "script": [{"stream": "out", "n": rng.choice([1000, 777, 4321]), "seed": 3999, "gap_ms": 150}, {"stream": "out", "n": 300000, "seed": 4000, "gap_ms": 150}, {"stream": "out", "n": 300000, "seed": 4001, "gap_ms": 0},
+                                 {"stream": "err", "n": 2000, "seed": 4002, "gap_ms": 0}]})
     # the first host's connection goes away with output backed up; a second host reattaches to the running plugin
     for i in range(3 if tier == "quick" else 24):
         cases.append({"name": "io%d" % len(cases), "proto": "grpc", "kind": "handover", "pre": [], "script": [],
